@@ -149,6 +149,13 @@ Step ==
             /\ sym' = [sym EXCEPT ![e.s].rest = {}]
             /\ stats' = [stats EXCEPT !.after = @ + 1]
             /\ UNCHANGED ords
+       [] e.k = "exc" ->       \* the session ended with an exception.  Legitimate: the account refusing an order (margin / balance)
+                               \* and the documented validation of identical stop-loss and take-profit declarations; anything else
+                               \* raised while the strategy only made legal declarations is the strategy layer aborting the session
+            /\ vs' = AddAll(vs, l, If(\/ e.cls \in {"InsufficientMargin", "InsufficientBalance"}
+                                      \/ (e.cls = "InvalidStrategy" /\ e.msg = "stop-loss and take-profit should not be "),
+                                      "session-aborted-by:" \o e.cls))
+            /\ UNCHANGED <<ords, sym, stats>>
        [] e.k = "proj" ->      \* replay of a model behaviour: projected model state next to the real one
             /\ vs' = AddAll(vs, l, IF e.cmp THEN If(e.mq = e.iq, "model-divergence:position")
                                                   \o If(BagEq(e.mact, e.iact), "model-divergence:active-orders")
